@@ -47,9 +47,13 @@ MANIFEST = {
             "inside one process): 72 topologies of identical layout, bonds and residue names differing only in the element of the "
             "donor heavy atom {O,N,C}, of the hydrogen {H,C}, of the acceptor {O,N,C}, the acceptor's name {OD1,O} and a ligand "
             "donor's element {N,C}; every topology with each single-axis neighbour as [v,w] on two Topology objects (both orders) "
-            "and as [v->w->v] edited in place on one object (thorough: all ordered pairs) x exclude_water x sidechain_only, "
+            "and as [v -> w -> copy() of the edited object -> v] edited in place on one object (thorough: all ordered pairs) x "
+            "exclude_water x sidechain_only, every sequence tagged with a unique name on an inert atom so that no earlier "
+            "topology of the process has the same content, "
             "baker_hubbard then wernet_nilsson, every result compared with the reference of ITS topology; the same for "
-            "kabsch_sander with renamed N/CA/C/O atoms and a PRO residue name. Oracle = the "
+            "kabsch_sander: N, CA, C or O of the donor or of the acceptor residue renamed, acceptor O <-> OT1, donor residue named "
+            "PRO, each as [base; rename in place; copy()], the reverse repair [broken; repair in place; copy()], [base; rename; "
+            "restore] and two objects in both orders, in-place sequences first. Oracle = the "
             "docstring criteria in float64 (strict inequalities; mean presence > freq; 0.33-0.000044 delta^2; "
             "E = 0.42*0.2*33.2*(1/rON+1/rCH-1/rOH-1/rCN) with H 0.1 nm from N along O->C of the preceding residue; best two per "
             "donor). The property is about threshold semantics on all structures; designed grids that straddle every threshold "
@@ -1406,7 +1410,7 @@ def run(ctx):
                    [dict(family="ks", structure=_CTX["ks"][k[0]][0], frames=[k[1], k[2]]) for k in kitems[:1]],
         "exhaustive": True,
         "history_layer": {"sequences": tot["hist_seqs"], "calls_judged": tot["hist_calls"], "variants": len(hist_variants()),
-                          "axes": H_AXES, "modes": ["two-objects [v,w]", "in-place [v->w->v]"], "processes": nitem,
+                          "axes": H_AXES, "modes": ["two-objects [v,w]", "in-place [v -> w -> copy() -> v]", "ks: [base,edit,copy] [edited,repair,copy] [base,edit,base] two-objects both orders"], "processes": nitem,
                           "kabsch_sander_edits": [e[0] for e in KSH_EDITS[1:]]},
         "trajectories_bh_wn": tot["trajs"], "ks_windows": len(kitems), "ks_calls": tot["ks_calls"],
         "ks_donor_acceptor_pairs_evaluated": tot["ks_pairs"], "ks_bonds_required": tot["ks_bonds"], "ks_donors_with_three_or_more_candidates": tot["ks_three_plus"],
